@@ -34,6 +34,15 @@ impl Builder {
             return Err(Error::EmptySamplesMap);
         }
 
+        // A sample listed more than once with different populations would leave a population
+        // without samples (and the spectrum without a well-defined shape)
+        if !sample_map.populations_are_nonempty() {
+            return Err(Error::Io(io::Error::new(
+                io::ErrorKind::InvalidInput,
+                "sample defined more than once with different populations",
+            )));
+        }
+
         // All samples in sample map should be in reader samples
         let reader_samples = HashSet::<_>::from_iter(reader.samples());
         if let Some(unknown_sample) = sample_map
